@@ -41,12 +41,55 @@ def check(model: Model, rep: Report, tier: str):
                    "sub-circuit) behind the channel leaf found by a real leaf query (= C01.R6); the listing that is rebuilt from expands every node in place (= C02.L5)")
     with rep.isolated():
         share_rule(rep, model, l5, "C11.F4", "")
+    from .common import instance_state_rule
+    with rep.isolated():
+        instance_state_rule(model, rep, "C11.F7", "the graph a circuit is rebuilt into is its own: containers that graph / composite classes change through self are bound per "
+                            "instance -- a class-level lookup shared by all graphs makes flatten find the nodes of the OLD nested graph and attach operations there",
+                            keep=lambda c: "/structure/" in c.module.relpath.replace("\\", "/") and ("graph" in c.module.relpath or "composite" in c.module.relpath), floor=3)
+    with rep.isolated():
+        f8(model, rep)
     from .c01 import r5
     with rep.isolated():
         share_rule(rep, model, r5, "C11.F6", "an operation that pointed at a dissolved sub-circuit is re-linked behind the LATEST node sharing one of its channels -- the leaf query "
                    "skips no node (zero-length markers close a block and are its last nodes), so the follower keeps its place in listing and schedule (= C01.R5)")
     rep.rules_text["C11.F4"] = ("rebuilding the graph places every listed operation exactly once, under its reference or behind the channel leaf found by a real leaf query "
                                 "(= C01.R6); the listing that is rebuilt from expands every node in place (= C02.L5)")
+
+
+def f8(model: Model, rep: Report):
+    """Sibling agreement in the QEC block builder: the marker that closes a block occupies the same channels as the block's barriers."""
+    rep.rule("C11.F8", "get_circuit_qec_with_detectors: every CoordinateShiftOperation that closes a block is placed on the same qubits as the Barriers of that "
+                       "builder (all qubits of the description): after flatten() the operations that followed a dissolved block are re-linked behind the LAST node "
+                       "sharing a channel with them -- a closing marker on fewer channels lets data-qubit operations re-attach to an earlier barrier, and listing / "
+                       "schedule / Stim record offsets differ before and after flattening")
+    from ..sym import subterms as _sub
+    f = model.function("repetition_code.circuit_components", "get_circuit_qec_with_detectors")
+    ev = Evaluator(model, inline_methods=False)
+    ps = PathEnumerator(ev).function_paths(f)
+    shifts, barriers = [], []
+
+    def news(p):
+        for e in p.events:
+            if e.term is not None:
+                for t in _sub(e.term, lambda y: y[0] == "new" and y[1] in ("CoordinateShiftOperation", "Barrier")):
+                    q = dict(t[2]).get("qubit_indices")
+                    (shifts if t[1] == "CoordinateShiftOperation" else barriers).append(q)
+            if e.kind == "loop":
+                for bp in e.extra["paths"]:
+                    news(bp)
+    for p in ps:
+        news(p)
+    from .common import devar
+    bset = {repr(devar(b)) for b in barriers if b is not None}
+    sset = {repr(devar(x)): x for x in shifts if x is not None}
+    rep.floor("closing coordinate shifts in get_circuit_qec_with_detectors", len(shifts), 3)
+    if not bset:
+        raise AnalysisError("get_circuit_qec_with_detectors: no Barrier found to compare the closing markers with")
+    bad = [x for k, x in sset.items() if k not in bset]
+    rep.check(not bad, "C11.F8", "get_circuit_qec_with_detectors[closing marker]", f.loc, found="; ".join(sorted({show(x)[:60] for x in shifts if x is not None})),
+              required="the qubits of the builder's Barriers: " + "; ".join(sorted({show(b)[:60] for b in barriers if b is not None})),
+              what="a block's closing CoordinateShiftOperation covers other channels than the barriers: followers of the dissolved block re-link behind an earlier node "
+                   "after flatten(), so order, schedule and record offsets change", detail="closing-marker")
 
 
 def f1(model: Model, rep: Report):
